@@ -1057,8 +1057,10 @@ Proof.
     + eapply Permutation_trans; [exact Ip|]. cbn [opt_list app]. apply Permutation_refl.
     + split; [exact In3|]. intros H. destruct (Ie H) as [_ [E _]]. discriminate.
   - (* SSpawn *)
-    destruct (ss_running s); [|discriminate]. destruct (ss_cancelled s); [discriminate|].
-    injection Hs as Hs. subst s'. unfold sinv. repeat split; try assumption; apply Ie; assumption.
+    assert (Heq : s' = s).
+    { destruct (ss_running s); [|discriminate]. destruct (ss_cancelled s); [discriminate|].
+      injection Hs as Hs. symmetry. exact Hs. }
+    subst s'. exact (conj Ind (conj Ip (conj In3 Ie))).
   - (* SCancel *)
     injection Hs as Hs. subst s'. unfold sinv. sproj. repeat split; try assumption; apply Ie; assumption.
   - (* SShutdown *)
@@ -1066,7 +1068,7 @@ Proof.
     injection Hs as Hs. subst s'. unfold sinv. sproj.
     split; [exact Ind|]. split.
     + rewrite sjobs_app. cbn [sjobs flat_map app]. rewrite app_nil_r. exact Ip.
-    + split; [reflexivity|]. intros H. destruct (Ie H) as [E _]. rewrite Hsh in E. discriminate.
+    + split; [reflexivity|]. intros H. destruct (Ie H) as [E _]. discriminate E.
   - (* SExit *)
     destruct (ss_exited s) eqn:Hex; [discriminate|].
     destruct (ss_running s) as [rj|] eqn:Hrun; [discriminate|].
@@ -1104,7 +1106,7 @@ Theorem serial_finished_subset ls s :
 Proof.
   intros Ha. destruct (saccepts_sinv _ _ _ sinv_init Ha) as [Ind [Ip _]].
   pose proof (Permutation_NoDup Ip Ind) as Hnd. split.
-  - apply NoDup_app_remove_l in Hnd. apply NoDup_app_remove_l in Hnd. exact Hnd.
+  - apply nodup_app_r in Hnd. apply nodup_app_r in Hnd. exact Hnd.
   - intros x Hx. apply (Permutation_in _ (Permutation_sym Ip)). apply in_or_app. right. apply in_or_app. right. exact Hx.
 Qed.
 
